@@ -5,7 +5,7 @@ CONSTANTS
   Strategies = {"AUTO", "FILL"}
   Counts = {1, 2}
   Reqs = {"b", "u"}
-  Deltas = {"cpu+", "mem+", "unbind", "huge"}
+  Deltas = {"cpu+", "mem+", "mem++", "unbind", "huge"}
   Includes <- IncludesQuick
   Modes = {"fault", "crash", "cancel"}
 CONSTRAINT Emit
